@@ -591,9 +591,13 @@ func (in *Interp) cond(st *State, e ast.Expr) string {
 		switch x.Op {
 		case token.LAND:
 			// A && B  ==  !(!A || !B): one canonical connective, operands sorted
-			return negCond(orCond(negCond(in.cond(st, x.X)), negCond(in.cond(st, x.Y))))
+			cx := in.cond(st, x.X)
+			cy := in.underShortCircuit(st, x.X, true, func() string { return in.cond(st, x.Y) })
+			return negCond(orCond(negCond(cx), negCond(cy)))
 		case token.LOR:
-			return orCond(in.cond(st, x.X), in.cond(st, x.Y))
+			cx := in.cond(st, x.X)
+			cy := in.underShortCircuit(st, x.X, false, func() string { return in.cond(st, x.Y) })
+			return orCond(cx, cy)
 		case token.EQL, token.NEQ, token.LSS, token.LEQ, token.GTR, token.GEQ:
 			l, r := in.operand(st, x.X), in.operand(st, x.Y)
 			switch x.Op {
@@ -904,6 +908,12 @@ func (in *Interp) eval(st *State, e ast.Expr) Val {
 			}
 			return IntV{setAtomMax(Opq(in.render(st, e)), 255)} // a byte of a local buffer
 		case SliceV:
+			// a constant index into a list the caller passed in (a variadic window argument): it must exist
+			if c, isC := constIntOf(in.info, x.Index); isC && strings.HasPrefix(b.Path, "arg:") && b.Len != nil && !in.noSites {
+				facts := append([]Fact(nil), st.facts...)
+				in.addSite(&Site{Kind: "index", Buf: b.Path, Origin: "list", Pos: x.Pos(), Text: in.render(st, x), Fn: in.fi.Key, Guard: in.guard(), Expr: x,
+					Needs: []Need{{A: Const(c + 1), B: b.Len, What: fmt.Sprintf("element %d of the list exists", c)}}, Facts: facts})
+			}
 			if b.Path != "" {
 				t := in.info.TypeOf(e)
 				return in.readPath(st, b.Path+"[*]", t)
@@ -1308,4 +1318,23 @@ func arrayOf(t types.Type) *types.Array {
 	}
 	a, _ := t.Underlying().(*types.Array)
 	return a
+}
+
+// underShortCircuit evaluates the right operand of && / || knowing what the left operand was: B in A && B
+// runs only when A held, B in A || B only when it did not. The bounds sites inside B see those facts.
+func (in *Interp) underShortCircuit(st *State, left ast.Expr, truth bool, f func() string) string {
+	nf, nn, ni := len(st.facts), len(st.nonNil), len(st.isNil)
+	saveFacts := append([]Fact(nil), st.facts...)
+	in.assume(st, left, truth)
+	out := f()
+	if len(st.facts) >= nf {
+		st.facts = saveFacts
+	}
+	if len(st.nonNil) >= nn {
+		st.nonNil = st.nonNil[:nn]
+	}
+	if len(st.isNil) >= ni {
+		st.isNil = st.isNil[:ni]
+	}
+	return out
 }
